@@ -6,6 +6,14 @@ Everything is about the Impl model of the *repaired* code (D6/D7/D15: at least t
 D8: `infer_last_probability` at `P = B`; D13: symbol/weight counts).  `B = Probability::BITS`,
 `P = PRECISION`, for all `1 ≤ P ≤ B`; tables are lists of `Probability` values (`< 2^B`).
 `ValidProbs P qs` = at least two entries, none zero, (unwrapped) total exactly `2^P`.
+
+**Distinct symbols.**  `C19_ncenc` / `C19_acceptance_iff` show that the hash-table encoder is
+accepted only for pairwise distinct symbols (`Nodup`).  `C19_ncdec`, `C19_nclookup` and the
+decoder clause of `C19_acceptance_iff` deliberately do **not** mention `Nodup`: the decoder
+constructors accept repeated symbols (their symbol type is only `Clone`).  For such input they
+return a valid *decoder* (valid cdf, correct lookup table), but "a model that satisfies C03"
+with one interval per symbol is not shown — this is the open known finding (see
+`C05_cat.lean`); the harness oracle reports it as such.
 -/
 namespace CV.Cat
 open CV
